@@ -224,6 +224,7 @@ class Interp:
         self.steps = 0
         self.live = []
         self.watch = set(watch_params)
+        self.watch_args = {('single_anneal_quso', 1): 'state', ('single_anneal_puso', 1): 'state'}
         self.defs = {}           # variable index -> ('div', n_poly, d_poly) | ('exp', arg_poly)
         self.called = set()
         self.checks = dict(loads=0, stores=0, range_checks=0, frees=0)
@@ -309,6 +310,9 @@ class Interp:
             raise Unsupported('call to undefined ' + name)
         self.called.add(name)
         f = self.funcs[name]
+        for (fn_, ai), label in self.watch_args.items():
+            if fn_ == name and isinstance(args[ai], Ptr) and args[ai].obj is not None:
+                args[ai].obj.watched = True; args[ai].obj.name = label
         env = {p[1]: a for p, a in zip(f.params, args)}
         frame_objs = []
         lab, prev = 'entry', None
